@@ -505,6 +505,46 @@ def oid_table(chk):
     chk.floor('object identifiers', n, 30)
 
 
+def ca_check_unavoidable(chk):
+    """"Every issuer is a CA": a certificate that is not the end-entity one must carry a Basic Constraints extension marking it as CA;
+    one without any extension (an X.509 v1 certificate) is not a CA.  In the certificate decoding word the test `end-entity or
+    Basic Constraints seen`, whose failure reports BR_ERR_X509_NOT_CA, must lie on *every* path from the start of the certificate to
+    its end - in particular not inside the branch taken only when an extensions field is present.  Path rule on the bytecode: with the
+    guard removed from the graph, the end of the word is unreachable from its start."""
+    R = 'x509-ca-check-unavoidable'
+    P = t0.Program('x509_minimal')
+    cv = build.const_values(['BR_ERR_X509_NOT_CA'])
+    I = t0ai.Interp(P).run_entry()
+    sites = sorted(set((e.word, e.pc) for e in I.events if e.name == 'fail' and e.args[0].isconst() and e.args[0].c == cv['BR_ERR_X509_NOT_CA']))
+    big = [(w, pc) for w, pc in sites if len(P.words[w].ins) > 200]
+    inst = 'x509_minimal: the "non-EE certificates must have Basic Constraints" test is on every path through the certificate decoder'
+    if len(big) != 1:
+        chk.violation(R, inst, P.src, '%d NOT_CA failure sites in the certificate decoding word (expected exactly 1): %s' % (len(big), sites), key='%s sites' % R)
+        return
+    w, pc = big[0]
+    W = P.words[w]
+    g = t0rules.guard_before(P, w, pc)
+    if g is None:
+        chk.violation(R, inst, P.src, 'W%d@%d: the failure is not guarded by a conditional jump' % (w, pc), key='%s guard' % R)
+        return
+    seen, st, reach_ret = set(), [W.start], False
+    while st:
+        q = st.pop()
+        if q in seen or q == g.pc or q not in W.ins:
+            continue
+        seen.add(q)
+        i = W.ins[q]
+        if i.kind == 'ret':
+            reach_ret = True
+            break
+        st.extend(W.succs(i))
+    if not reach_ret:
+        chk.ok(R, inst, P.src, 'guard at W%d@%d' % (w, g.pc))
+    else:
+        chk.violation(R, inst, P.src, 'the end of the certificate decoder is reachable without passing the test at W%d@%d: a certificate on that path '
+                      '(e.g. one without an extensions field) is accepted as an issuing CA' % (w, g.pc), key=R)
+
+
 def err_writers(chk):
     """C stores to err: validation success (BR_ERR_X509_OK) is written only by the two trust natives"""
     u = build.load_unit(S)
@@ -555,6 +595,7 @@ def run(tier):
     name_compare_vectors(chk)
     calendar_table(chk)
     oid_table(chk)
+    ca_check_unavoidable(chk)
     from . import c11 as _c11
     oblig.run_obligations(chk, _c11.asn1_sig_obligations())
     _c11.decode_mod_covers_source(chk)
